@@ -130,7 +130,7 @@ def main():
         p = parts.setdefault(r['part'], {'evaluations': 0, 'hashes': set(), 'count': 0,
                                          'classes': {}, 'samples': [], 'excluded_known': {},
                                          'excluded_bucket': 0, 'failures': {}, 'exhaustive': False,
-                                         'wall_cpu': 0.0})
+                                         'wall_cpu': 0.0, 'slowest': 0.0})
         p['evaluations'] += r['evaluations']
         p['hashes'] |= r['nontrivial_hashes']
         p['count'] += r['nontrivial_count']
@@ -147,6 +147,7 @@ def main():
                 p['failures'][b] = f
         p['exhaustive'] = p['exhaustive'] or r.get('exhaustive', False)
         p['wall_cpu'] += r['wall']
+        p['slowest'] = max(p['slowest'], r.get('slowest', 0.0))
 
     for pname, p in parts.items():
         for f in p['failures'].values():
@@ -205,7 +206,8 @@ def main():
                               'excluded_known': p['excluded_known'],
                               'excluded_same_bucket': p['excluded_bucket'],
                               'exhaustive': p['exhaustive'],
-                              'cpu_s': round(p['wall_cpu'], 1)}
+                              'cpu_s': round(p['wall_cpu'], 1),
+                              'slowest_case_s': round(p['slowest'], 2)}
                       for pname, p in parts.items()},
             'buckets': [{'part': f['part'], 'bucket': f['bucket'], 'message': f['message'][:500]}
                         for f, _ in out_paths],
